@@ -29,7 +29,7 @@ CHECKS = {
          "DESIGN.md section 5 C08"),
  "C09": ("fault_enumeration",
          "crash-image enumeration at build-tagged crash points + restart oracle in child processes",
-         "For generated histories a crash image (metadata.db + snapshots/) is taken at EVERY hit of the 14 snap.* crash points and at every operation boundary; each image is restarted in a fresh process under {allow-invalid, strict, no-restore} x {all mounts succeed, k-th mount fails} (plus leftover real bind mounts) and checked: restart result as the mode prescribes, exactly the committed remote snapshots re-mounted with their labels, markers in ordinary snapshots intact, acknowledged snapshots usable/removable, one Cleanup leaves exactly the live ids. Exhaustive over the crash points hit by each history; holds on the histories generated.",
+         "For generated histories a crash image (metadata.db + snapshots/) is taken at EVERY hit of the 14 snap.* crash points and at every operation boundary; each image is restarted in a fresh process under {allow-invalid, strict, no-restore} x {all mounts succeed, k-th mount fails} (plus leftover real bind mounts, in no-restore mode as the live mounts of a surviving filesystem that must stay) and checked: restart result as the mode prescribes, exactly the committed remote snapshots re-mounted with their labels, markers in ordinary snapshots intact, acknowledged snapshots usable/removable, one Cleanup leaves exactly the live ids. Exhaustive over the crash points hit by each history; holds on the histories generated.",
          "Trusted: a file copy of metadata.db taken while no transaction commits equals what a power cut leaves (bbolt writes only at commit); crash points inside containerd's storage package and inside a bbolt commit, and torn sector writes, are not enumerated.",
          "DESIGN.md section 5 C09"),
  "C01": ("exploration",
